@@ -362,3 +362,19 @@ def cfg_algos_script(rng, name, thorough):
         ops.append("iattempt y%d %s payload=%s" % (k, y, hx(rng.bytes(4))))
         ops += ["iinit x%d" % k, "ideliver-from x%d 0 y%d" % (k, k), "ideliver-from y%d 0 x%d" % (k, k), "ideliver-from x%d 0 y%d" % (k, k)]
     return Script(name, ops, {"suite": "init"})
+
+
+def equal_salt_script(rng, name):
+    """two different nodes whose handshake objects drew the SAME 4-byte salt (a 2^-32 event, prescribed here): the nonce halves are decided by the whole
+    salted node-id hashes, so the two ends still get opposite halves and the handshake completes in both role assignments"""
+    ops = ["ikeys 2 %s" % rng.bytes(6).hex(),
+           party("A", 0, [0, 1], DEFAULT_ALGOS, rng.bytes(16).hex()), party("B", 1, [0, 1], DEFAULT_ALGOS, rng.bytes(16).hex())]
+    for k in range(6):
+        salt = rng.bytes(4).hex()
+        a, b = "a%d" % k, "b%d" % k
+        ops += ["iattempt %s A payload=%s salt=%s" % (a, hx(rng.bytes(3)), salt), "iattempt %s B payload=%s salt=%s" % (b, hx(rng.bytes(4)), salt)]
+        first, other = (a, b) if k % 2 == 0 else (b, a)
+        ops += ["iinit " + first, "ideliver-from %s 0 %s" % (first, other), "ideliver-from %s 0 %s" % (other, first), "ideliver-from %s 0 %s" % (first, other),
+                "ideliver-from %s 0 %s" % (other, first), "isend %s 0 aa" % a, "ideliver-from %s 0 %s" % (a, b), "isend %s 0 bb" % b, "ideliver-from %s 0 %s" % (b, a),
+                "iexpect both %s %s" % (a, b)]
+    return Script(name, ops, {"suite": "init", "noshrink": True})
